@@ -233,6 +233,7 @@ variable {κ ρ : Type} (env : GEnv κ ρ)
 def Safe (s : Sim κ ρ) : Prop := s.initSeed = none ∨ s.results.isSome = true
 
 theorem initSeedsGlobalFirst_true : Gen.initSeedsGlobalFirst = true := by decide
+theorem initResetsProcessState_true : initResetsProcessState = true := by decide
 theorem doRunFalseSkipsInit_true : Gen.doRunFalseSkipsInit = true := by decide
 
 /-- One `single_run` of a `Safe` object, from ANY state of the hosting process: same error, or the same sim as the
@@ -241,7 +242,7 @@ theorem singleRunG_refines (obj : Sim κ ρ) (t : Task κ ρ) (g : GState) (hs :
     (∃ er, singleRunG env obj t g = .error er ∧ singleRun env.pure obj t = .error er) ∨
     (∃ r g', singleRunG env obj t g = .ok (r, g') ∧ singleRun env.pure obj t = .ok r ∧ Safe r) := by
   unfold singleRunG singleRun
-  simp only [initGlobal, initSeedsGlobalFirst_true, doRunFalseSkipsInit_true, if_true]
+  simp only [initGlobal, initResetsProcessState_true, doRunFalseSkipsInit_true, if_true]
   by_cases hd : t.doRun = true
   · simp only [hd, if_true]
     by_cases hr : obj.results.isSome = true
